@@ -509,11 +509,11 @@ func init() {
 		},
 		Run: func(tier string, i int, deadline time.Time) *hk.JobResult {
 			if cs := configs(tier); i >= len(cs) {
-				r := &hk.JobResult{Exhaustive: true, Bounds: map[string]any{"rebind_depth": 3}}
 				d := 3
 				if tier == "thorough" {
 					d = 5
 				}
+				r := &hk.JobResult{Exhaustive: true, Bounds: map[string]any{"rebind_depth": d, "rebind_operations": len(rebindOps)}}
 				rebindJob(cs[i-len(cs)].Kind, d, r)
 				return r
 			}
